@@ -1,5 +1,337 @@
-import CachedModel
+/-
+  C13  Shutdown refuses new work, answers every pending command, never blocks.
+
+  All statements are about Layer A (CachedModel/State.lean).  Quantifiers: every state (or every state with the
+  queue invariant `QInv` of Lemmas/Queue.lean, which holds at every reachable state: `qinv_reach`), every client,
+  key, value, weight, event, oracle.  Reading guide:
+    * refuses new work: once the flag is set every write returns `Err` and every read returns nothing, the state
+      untouched (1, 2); the flag is set by `shutdown()` before anything else and never lowered (3);
+    * answers every pending command: the worker, running or draining, answers the head of the queue at every
+      step with a status that is not `pending` (4); when it has emptied the queue no acknowledgement ever handed
+      out is still pending (5); a worker step is always possible while the queue is non-empty, for every oracle,
+      when the head needs no admission oracle (5');
+    * never blocks: `shutdown()` can only wait at its two sends; ONE worker step (resp. ONE consumer step) makes
+      the parked call resumable, and it then runs on — to its end from the second send (6).
+  What the model (faithfully to the implementation) does NOT give, see the report: after a worker panic the
+  pending acknowledgements are never answered (D8), and commands executed after `shutdown()` has cleared the
+  store still write into it (`C11_shutdown_corner`).
+-/
+import CachedProofs.Properties.C11
 
 namespace Cached
+
+/-! ### 1, 2: new work is refused -/
+
+/-- After the flag is set every write is refused with `Err`, the state unchanged.  (`put` computes and asserts
+    the weight before it looks at the flag, so it may panic instead — also with the state unchanged.) -/
+theorem C13_refuses_writes (s : State) (hs : s.shutting = true) (c k v : Nat) (w : Int) (t : Nat)
+    (ov : Option Nat) (ow : Option Int) (ot : Option Nat) (rm : Bool) :
+    clientPutW s c k v w = (s, .err) ∧ clientPutTtl s c k v t = (s, .err) ∧
+    clientPutWTtl s c k v w t = (s, .err) ∧ clientUpsert s c k ov ow ot rm = (s, .err) ∧
+    clientDelete s c k = (s, .err) ∧
+    (clientPut s c k v = (s, .err) ∨ clientPut s c k v = (s, .panic .weightNotPositive)) := by
+  refine ⟨?_, ?_, ?_, ?_, ?_, ?_⟩
+  · unfold clientPutW; rw [if_pos hs]
+  · unfold clientPutTtl; rw [if_pos hs]
+  · unfold clientPutWTtl; rw [if_pos hs]
+  · unfold clientUpsert; rw [if_pos hs]
+  · unfold clientDelete; rw [if_pos hs]
+  · unfold clientPut
+    dsimp only
+    by_cases hw : s.cfg.weightOf v false ≤ 0
+    · rw [if_pos hw]; exact Or.inr rfl
+    · rw [if_neg hw, if_pos hs]; exact Or.inl rfl
+
+/-- After the flag is set reads return nothing and touch nothing (no statistics, no access buffer). -/
+theorem C13_refuses_reads (s : State) (hs : s.shutting = true) (k : Nat) (ks : List Nat) (o : Oracle) :
+    clientGet s k o = .ok (s, .value none, o) ∧ clientMultiGet s ks o = .ok (s, .values [], o) := by
+  constructor
+  · unfold clientGet; rw [if_pos hs]
+  · unfold clientMultiGet; rw [if_pos hs]
+
+/-! ### 3: the flag -/
+
+/-- No event lowers the flag. -/
+theorem C13_flag_permanent {s s' : State} {ev : Ev} {o o' : Oracle} {out : Out} (hs : s.shutting = true)
+    (h : step s ev o = .ok (s', out, o')) : s'.shutting = true := by
+  by_cases hev : ev = .worker
+  · subst hev
+    have hw : workerStep s o = .ok (s', out, o') := h
+    obtain ⟨-, cmd, hd, q, -, hpost⟩ := workerStep_spec hw
+    rw [hpost.shutting]; exact hs
+  · exact (mono_step hev h).shutting hs
+
+/-- `shutdown()` sets the flag first: whatever it returns (even when it parks at a send) the flag is set;
+    a second `shutdown()` returns at once and changes nothing. -/
+theorem C13_shutdown_sets_flag (s : State) (c : Nat) :
+    (clientShutdown s c).1.shutting = true ∧ (s.shutting = true → clientShutdown s c = (s, .none)) := by
+  constructor
+  · unfold clientShutdown
+    split
+    · rename_i h; exact h
+    · exact (mono_shutdownSendCmd { s with shutting := true } c).shutting rfl
+  · intro hs
+    unfold clientShutdown
+    rw [if_pos hs]
+
+/-! ### 4, 5: every pending command is answered -/
+
+/-- In draining mode (after the `Shutdown` command) the worker answers the head of the queue `ShuttingDown`,
+    whatever command it is, and stays draining. -/
+theorem C13_draining_answers_everything {s s' : State} {o o' : Oracle} {out : Out} (hd : s.worker = .draining)
+    (h : workerStep s o = .ok (s', out, o')) :
+    out = .worked "Drain" .shuttingDown none [] [] ∧ s'.worker = .draining ∧
+    ∃ cmd hdl, s.queue = (cmd, hdl) :: s'.queue ∧ s'.acks = setAck s.acks hdl .shuttingDown ∧
+      ∀ i, hdl = some i → i < s.acks.length → s'.acks[i]? = some .shuttingDown := by
+  obtain ⟨-, cmd, hdl, q, hq, hpost⟩ := workerStep_spec h
+  rcases hpost.outcome with ⟨p, -, hr, -⟩ | ⟨kind, st, ie, pp, ev, hout, -, hq', ha, hmode⟩
+  · rw [hd] at hr; cases hr
+  · rcases hmode with ⟨-, h2, rfl, rfl, rfl, rfl, rfl⟩ | ⟨hr, -⟩ | ⟨hr, -⟩
+    · refine ⟨hout, h2, cmd, hdl, by rw [hq', hq], ha, ?_⟩
+      intro i hi hlt
+      subst hi
+      rw [ha]
+      show (s.acks.set i .shuttingDown)[i]? = some .shuttingDown
+      rw [List.getElem?_set_self hlt]
+    · rw [hd] at hr; cases hr
+    · rw [hd] at hr; cases hr
+
+/-- In every mode a (non-panicking) worker step answers exactly the head of the queue, with the status it
+    reports, never `pending` (this is `C11_worker_takes_head`). -/
+theorem C13_running_answers_real_status {s s' : State} {o o' : Oracle} {out : Out}
+    (h : workerStep s o = .ok (s', out, o')) (hnp : ∀ p, out ≠ .workerPanic p) :
+    ∃ cmd hd, s.queue = (cmd, hd) :: s'.queue ∧
+      (∀ i, some i ≠ hd → s'.acks[i]? = s.acks[i]?) ∧
+      ∃ kind st ie pp ev, out = .worked kind st ie pp ev ∧ st ≠ .pending ∧
+        ∀ i, hd = some i → i < s.acks.length → s'.acks[i]? = some st :=
+  C11_worker_takes_head h hnp
+
+/-- Once the (live) worker has emptied the queue, every acknowledgement ever handed out is answered. -/
+theorem C13_no_caller_waits_forever {s : State} (hinv : QInv s) (hw : s.worker ≠ .dead) (hq : s.queue = [])
+    (h : Nat) (st : Status) (hs : s.acks[h]? = some st) : st ≠ .pending := by
+  intro e
+  subst e
+  have := hinv.pendingQueued hw h hs
+  simp only [queueHandles, hq, List.filterMap_nil] at this
+  cases this
+
+/-- at every reachable state -/
+theorem C13_no_caller_waits_forever_reach {cfg : Cfg} {now : Nat} {seeds : List Nat} {s : State}
+    (hr : QReach cfg now seeds s) (hw : s.worker ≠ .dead) (hq : s.queue = []) (h : Nat) (st : Status)
+    (hs : s.acks[h]? = some st) : st ≠ .pending :=
+  C13_no_caller_waits_forever (qinv_reach hr) hw hq h st hs
+
+/-- The worker can always take its next step while the queue is non-empty, for EVERY oracle, when the head
+    needs no admission oracle: the worker is draining, or the head is `Shutdown`, a delete or a weight update.
+    (For a put the step exists for every oracle that is legal for the admission policy; not stated here.) -/
+theorem C13_worker_always_enabled {s : State} {cmd : Cmd} {hd : Option Nat} {q : List (Cmd × Option Nat)}
+    (hw : s.worker ≠ .dead) (hq : s.queue = (cmd, hd) :: q)
+    (hc : s.worker = .draining ∨ cmd = .shutdown ∨ (∃ k, cmd = .delete k) ∨ (∃ id w, cmd = .updateWeight id w))
+    (o : Oracle) : ∃ r, workerStep s o = .ok r := by
+  cases hm : s.worker with
+  | dead => exact absurd hm hw
+  | draining =>
+    unfold workerStep
+    rw [hm, hq]
+    exact ⟨_, rfl⟩
+  | running =>
+    rw [hm] at hc
+    rcases hc with hc | rfl | ⟨k, rfl⟩ | ⟨id, w, rfl⟩
+    · cases hc
+    · unfold workerStep
+      rw [hm, hq]
+      exact ⟨_, rfl⟩
+    · unfold workerStep
+      rw [hm, hq]
+      simp only []
+      cases workerDelete _ k <;> exact ⟨_, rfl⟩
+    · unfold workerStep
+      rw [hm, hq]
+      simp only []
+      cases workerUpdateWeight _ id w <;> exact ⟨_, rfl⟩
+
+/-! ### 6: `shutdown()` never blocks -/
+
+/-- (a) `shutdown()` returns, or waits at one of its two sends. -/
+theorem C13_shutdown_returns_or_parks {s s' : State} {c : Nat} {out : Out} (h : clientShutdown s c = (s', out)) :
+    (out = .none ∨ out = .parked) ∧
+    (out = .parked → s'.pend.get? c = some .shutdownCmd ∨ s'.pend.get? c = some .shutdownBuf) := by
+  unfold clientShutdown at h
+  split at h
+  · cases h
+    exact ⟨Or.inl rfl, fun e => by cases e⟩
+  · rcases shutdownSendCmd_spec { s with shutting := true } c with ⟨-, -, e⟩ | ⟨-, s1, hp, -, -, -, -, e⟩
+    · rw [e] at h
+      cases h
+      exact ⟨Or.inr rfl, fun _ => Or.inl (AMap.get?_set_same _ _ _)⟩
+    · rw [e] at h
+      rcases shutdownSendBuf_spec s1 c with ⟨e2, -, -⟩ | ⟨-, -, e2⟩
+      · have : out = .none := by rw [← e2, h]
+        subst this
+        exact ⟨Or.inl rfl, fun e => by cases e⟩
+      · rw [e2] at h
+        cases h
+        exact ⟨Or.inr rfl, fun _ => Or.inr (AMap.get?_set_same _ _ _)⟩
+
+/-- (b) A `shutdown()` parked at the command queue: ONE worker step (any outcome, any oracle) makes it
+    resumable — the queue has room again, or the worker is dead — and leaves it parked there; `resume` is then
+    a legal event.  (Holds whether or not the queue was full before the step: `QInv.bounded`.) -/
+theorem C13_shutdown_cmd_resumable {s s' : State} {c : Nat} {o o' : Oracle} {out : Out} (hinv : QInv s)
+    (hp : s.pend.get? c = some .shutdownCmd) (h : workerStep s o = .ok (s', out, o')) :
+    (s'.worker = .dead ∨ s'.queue.length < s'.cfg.cmdCap) ∧ s'.pend.get? c = some .shutdownCmd ∧
+    ∃ r, resume s' c = .ok r := by
+  obtain ⟨-, cmd, hd, q, hq, hpost⟩ := workerStep_spec h
+  have hp' : s'.pend.get? c = some .shutdownCmd := by rw [hpost.pend]; exact hp
+  have hroom : s'.worker = .dead ∨ s'.queue.length < s'.cfg.cmdCap := by
+    rcases hpost.outcome with ⟨p, -, -, -, hdead, -⟩ | ⟨kind, st, ie, pp, ev, -, -, hq', -⟩
+    · exact Or.inl hdead
+    · right
+      have := hinv.bounded
+      rw [hq] at this
+      simp only [List.length_cons] at this
+      rw [hq', hpost.cfg]
+      omega
+  refine ⟨hroom, hp', _, resume_shutdownCmd hp' ?_⟩
+  intro ⟨h1, h2⟩
+  rcases hroom with h3 | h3
+  · exact h1 h3
+  · omega
+
+/-- (b') and the resumed call does not wait at the command queue again: it returns, or waits at the second send. -/
+theorem C13_shutdown_cmd_resume {s : State} {c : Nat} (hp : s.pend.get? c = some .shutdownCmd)
+    (he : s.worker = .dead ∨ s.queue.length < s.cfg.cmdCap) :
+    ∃ s' out, resume s c = .ok (s', out) ∧
+      ((out = .none ∧ Finished s') ∨ (out = .parked ∧ s'.pend.get? c = some .shutdownBuf)) := by
+  have hen : ¬ (s.worker ≠ .dead ∧ s.queue.length ≥ s.cfg.cmdCap) := by
+    intro ⟨h1, h2⟩
+    rcases he with h3 | h3
+    · exact h1 h3
+    · omega
+  refine ⟨(shutdownSendCmd { s with pend := s.pend.del c } c).1,
+    (shutdownSendCmd { s with pend := s.pend.del c } c).2, resume_shutdownCmd hp hen, ?_⟩
+  rcases shutdownSendCmd_spec { s with pend := s.pend.del c } c with ⟨h1, h2, -⟩ | ⟨-, s1, -, -, -, -, -, e⟩
+  · exact absurd ⟨h1, h2⟩ hen
+  · rw [e]
+    rcases shutdownSendBuf_spec s1 c with ⟨e2, hf, -⟩ | ⟨-, -, e2⟩
+    · exact Or.inl ⟨e2, hf⟩
+    · rw [e2]
+      exact Or.inr ⟨rfl, AMap.get?_set_same _ _ _⟩
+
+/-- (c) A `shutdown()` parked at the buffer channel: ONE consumer step makes it resumable — the channel has
+    room again, or the consumer has exited — and leaves it parked there; `resume` is then a legal event. -/
+theorem C13_shutdown_buf_resumable {s s' : State} {c : Nat} {o o' : Oracle} {out : Out} (hinv : QInv s)
+    (hp : s.pend.get? c = some .shutdownBuf) (h : consumerStep s o = .ok (s', out, o')) :
+    (s'.consumerAlive = false ∨ s'.bufq.length < s'.cfg.bufChanCap) ∧ s'.pend.get? c = some .shutdownBuf ∧
+    ∃ r, resume s' c = .ok r := by
+  obtain ⟨-, -, -, -, hcfg, -, hpend, x, q, hq, hb⟩ := consumerStep_spec h
+  have hp' : s'.pend.get? c = some .shutdownBuf := by rw [hpend]; exact hp
+  have hroom : s'.consumerAlive = false ∨ s'.bufq.length < s'.cfg.bufChanCap := by
+    rcases hb with ⟨hb, -⟩ | ⟨-, hdead⟩
+    · right
+      have := hinv.bufBounded
+      rw [hq] at this
+      simp only [List.length_cons] at this
+      rw [hb, hcfg]
+      omega
+    · exact Or.inl hdead
+  refine ⟨hroom, hp', _, resume_shutdownBuf hp' ?_⟩
+  intro ⟨h1, h2⟩
+  rcases hroom with h3 | h3
+  · rw [h1] at h3; cases h3
+  · omega
+
+/-- (d) `resume` of a `shutdown()` parked at the buffer channel, when enabled, runs the call to its end:
+    `shutdown()` has returned, both helper threads are told to stop, store, weights and TTL index are cleared,
+    the parking slot is free. -/
+theorem C13_shutdown_buf_resume {s : State} {c : Nat} (hp : s.pend.get? c = some .shutdownBuf)
+    (he : s.consumerAlive = false ∨ s.bufq.length < s.cfg.bufChanCap) :
+    ∃ s', resume s c = .ok (s', .none) ∧ s'.consumerKeep = false ∧ s'.sweeperKeep = false ∧ s'.store = [] ∧
+      s'.adm.kw = [] ∧ s'.adm.used = 0 ∧ s'.ttl = [] ∧ s'.pend.get? c = none := by
+  have hen : ¬ (s.consumerAlive = true ∧ s.bufq.length ≥ s.cfg.bufChanCap) := by
+    intro ⟨h1, h2⟩
+    rcases he with h3 | h3
+    · rw [h1] at h3; cases h3
+    · omega
+  have hr := resume_shutdownBuf hp hen
+  rcases shutdownSendBuf_spec { s with pend := s.pend.del c } c with ⟨e2, hf, hpd⟩ | ⟨h1, h2, -⟩
+  · refine ⟨(shutdownSendBuf { s with pend := s.pend.del c } c).1, ?_, hf.1, hf.2.1, hf.2.2.1, hf.2.2.2.1,
+      hf.2.2.2.2.1, hf.2.2.2.2.2, ?_⟩
+    · rw [hr, ← e2]
+    · rw [hpd]; exact AMap.get?_del_same _ _
+  · exact absurd ⟨h1, h2⟩ hen
+
+/-! ### 7: concrete runs -/
+
+/-- Capacity 1.  A put is queued; `shutdown()` sets the flag and parks at the command queue. -/
+example :
+    (runEvs (State.init (cfgCap 1) 0 []) [.putW 0 1 10 1, .shutdown 7]).map (fun r => (r.1.qview, r.2)) =
+    some (⟨[(.put 1 1 1 1 10, some 0)], [.pending], .running, true, [(7, .shutdownCmd)]⟩,
+      [.ack 0 .pending, .parked]) := by decide
+
+/-- `resume` before a worker step is not an event the implementation can produce; after ONE worker step it is,
+    and `shutdown()` returns: `Shutdown` is queued, the store is cleared. -/
+example :
+    (runEvs (State.init (cfgCap 1) 0 []) [.putW 0 1 10 1, .shutdown 7, .resume 7]).isNone = true := by decide
+example :
+    (runEvs (State.init (cfgCap 1) 0 []) [.putW 0 1 10 1, .shutdown 7, .worker, .resume 7]).map
+      (fun r => (r.1.qview, r.2)) =
+    some (⟨[(.shutdown, none)], [.accepted], .running, true, []⟩,
+      [.ack 0 .pending, .parked, .worked "Put" .accepted none [] [], .none]) := by decide
+example :
+    (runEvs (State.init (cfgCap 1) 0 []) [.putW 0 1 10 1, .shutdown 7, .worker, .resume 7]).map
+      (fun r => (r.1.store, r.1.consumerKeep, r.1.sweeperKeep, r.1.bufq)) =
+    some ([], false, false, [.shutdown]) := by decide
+
+/-- Afterwards: a put returns `Err`, a read returns nothing, a second `shutdown()` returns at once, the worker
+    executes `Shutdown` and drains. -/
+example :
+    (runEvs (State.init (cfgCap 1) 0 [])
+      [.putW 0 1 10 1, .shutdown 7, .worker, .resume 7, .putW 1 2 20 1, .get 1, .shutdown 8, .worker]).map
+      (fun r => (r.1.qview, r.2)) =
+    some (⟨[], [.accepted], .draining, true, []⟩,
+      [.ack 0 .pending, .parked, .worked "Put" .accepted none [] [], .none, .err, .value none, .none,
+       .worked "Shutdown" .accepted none [] []]) := by decide
+
+/-- A delete parked at the full queue while `shutdown()` runs is answered `ShuttingDown` by the draining
+    worker: no acknowledgement stays pending. -/
+example :
+    (runEvs (State.init (cfgCap 1) 0 [])
+      [.putW 0 1 10 1, .delete 1 1, .shutdown 7, .worker, .resume 7, .worker, .resume 1, .worker]).map
+      (fun r => (r.1.qview, r.2)) =
+    some (⟨[], [.accepted, .shuttingDown], .draining, true, []⟩,
+      [.ack 0 .pending, .parked, .parked, .worked "Put" .accepted none [] [], .none,
+       .worked "Shutdown" .accepted none [] [], .ack 1 .pending, .worked "Drain" .shuttingDown none [] []]) := by
+  decide
+
+/-- hypotheses of 4, 5, 5' satisfiable -/
+example :
+    (runEvs (State.init (cfgCap 1) 0 [])
+      [.putW 0 1 10 1, .delete 1 1, .shutdown 7, .worker, .resume 7, .worker, .resume 1]).map
+      (fun r => (r.1.worker, r.1.queue)) = some (.draining, [(.delete 1, some 1)]) := by decide
+
+/-- The second send.  Buffer channel of capacity 1, buffers of size 0: one read hit fills the channel;
+    `shutdown()` queues `Shutdown` and parks at the buffer channel; ONE consumer step later `resume` completes it. -/
+example :
+    (runEvsO (State.init { cfgCap 1 with bufChanCap := 1, bufSize := 0 } 0 [])
+      [(.putW 0 1 10 1, {}), (.worker, {}), (.get 1, { pool := [0] }), (.shutdown 7, {})]).map
+      (fun r => (r.1.qview, r.2, r.1.bufq)) =
+    some (⟨[(.shutdown, none)], [.accepted], .running, true, [(7, .shutdownBuf)]⟩,
+      [.ack 0 .pending, .worked "Put" .accepted none [] [], .value (some 10), .parked], [.full []]) := by decide
+example :
+    (runEvsO (State.init { cfgCap 1 with bufChanCap := 1, bufSize := 0 } 0 [])
+      [(.putW 0 1 10 1, {}), (.worker, {}), (.get 1, { pool := [0] }), (.shutdown 7, {}),
+       (.resume 7, {})]).isNone = true := by decide
+example :
+    (runEvsO (State.init { cfgCap 1 with bufChanCap := 1, bufSize := 0 } 0 [])
+      [(.putW 0 1 10 1, {}), (.worker, {}), (.get 1, { pool := [0] }), (.shutdown 7, {}), (.consumer, {}),
+       (.resume 7, {})]).map (fun r => (r.1.qview, r.2)) =
+    some (⟨[(.shutdown, none)], [.accepted], .running, true, []⟩,
+      [.ack 0 .pending, .worked "Put" .accepted none [] [], .value (some 10), .parked, .consumed, .none]) := by
+  decide
+example :
+    (runEvsO (State.init { cfgCap 1 with bufChanCap := 1, bufSize := 0 } 0 [])
+      [(.putW 0 1 10 1, {}), (.worker, {}), (.get 1, { pool := [0] }), (.shutdown 7, {}), (.consumer, {}),
+       (.resume 7, {})]).map (fun r => (r.1.bufq, r.1.store, r.1.consumerKeep, r.1.sweeperKeep)) =
+    some ([.shutdown], [], false, false) := by decide
 
 end Cached
